@@ -380,6 +380,22 @@ fn pair_from_json(j: &Json) -> Result<Pair, String> {
     })
 }
 
+/// closed cause classes by edit kind
+fn edit_cause(edit: &str) -> &'static str {
+    match edit {
+        "append" => "reader_has_more_trailing_members_reads_padding_or_nothing",
+        "truncate" => "reader_has_fewer_trailing_members",
+        "add" | "remove" | "reorder" | "add_remove_reorder" => "mutable_member_set_changed",
+        "nested_appendable_evolved" => "nested_appendable_evolved_dheader_ignored",
+        "nested_mutable_evolved" => "nested_mutable_evolved",
+        "nested_final_member_retyped" => "assignability_ignores_nested_types",
+        "member_retyped_incompatibly" => "member_retyped_incompatibly",
+        "extensibility_changed" => "extensibility_changed",
+        "same" => "identical_types",
+        _ => "unclassified",
+    }
+}
+
 fn ext_of(t: &Ty) -> &'static str {
     match t {
         Ty::Struct(s) => s.ext.name(),
@@ -411,7 +427,7 @@ fn eval_pair(rep: &mut Report, p: &Pair, values: &[Val], skip_sub: &dyn Fn(u64) 
                 rep.stat("api_panics", 1);
                 rep.nontrivial(fnv_str(&format!("api_panic|{}", pi.sig())));
                 rep.violation(
-                    format!("type_evolution|assignability_panic|{}", pi.sig()),
+                    format!("type_evolution|assignability_panic|cause=unclassified|site={}", pi.sig()),
                     format!(
                         "CompleteTypeObject::from / is_assignable_from panicked: {} at {} ; {}",
                         pi.msg,
@@ -430,7 +446,7 @@ fn eval_pair(rep: &mut Report, p: &Pair, values: &[Val], skip_sub: &dyn Fn(u64) 
     rep.stat(if asg { "api:assignable" } else { "api:not_assignable" }, 1);
     if !refl_r || !refl_w {
         rep.violation(
-            format!("type_evolution|not_reflexive|ext={}", ext_of(&p.r)),
+            "type_evolution|not_reflexive".to_string(),
             format!("is_assignable_from(T, T) is false for {}", ty_to_json(if !refl_r { &p.r } else { &p.w }).to_string()),
             pair_json(p),
         );
@@ -500,13 +516,14 @@ fn eval_pair(rep: &mut Report, p: &Pair, values: &[Val], skip_sub: &dyn Fn(u64) 
             continue;
         }
         for vd in verdicts {
-            let sig = format!(
-                "type_evolution|{}|edit={}|ext={}|rep={}",
-                vd,
-                p.edit,
-                ext_of(&p.w),
-                ver_name(r)
-            );
+            // closed form: verdict x coarse failure kind x representation x edit class; panics are
+            // consequences of a mis-parse and are not split by edit kind
+            let verdict = vd.split('|').next().unwrap_or("");
+            let sig = if vd.contains("decode_panic|") {
+                format!("type_evolution|decode_panicked|rep={}|cause=misparse_consequence", ver_name(r))
+            } else {
+                format!("type_evolution|{}|rep={}|cause={}", verdict, ver_name(r), edit_cause(p.edit))
+            };
             let (detail, value, bytes) = match &first_fail {
                 Some((e, v)) => (format!("{} {}", e.key, e.detail), val_to_json(&p.w, v), e.bytes_hex.clone()),
                 None => ("all sampled values decode with the common members preserved".to_string(), Json::Null, String::new()),
@@ -596,7 +613,7 @@ pub fn run(a: &Cli) -> Report {
                 (_, Some((d, _))) => {
                     rep.eval();
                     rep.violation(
-                        format!("type_evolution|{}", d.class()),
+                        format!("type_evolution|decode_killed_process|rep={}|cause=misparse_consequence", r.get("rep").and_then(|x| x.as_str()).map(|x| if x.starts_with("XCDR1") { "XCDR1" } else { "XCDR2" }).unwrap_or("XCDR2")),
                         format!("process died while decoding with the reader type: {}", d.detail()),
                         r.clone(),
                     );
@@ -639,13 +656,7 @@ pub fn run(a: &Cli) -> Report {
         rep.stat(&format!("decode:{}", death.class()), 1);
         rep.nontrivial(fnv_str(&format!("{}|{}|{}", p.edit, r.name(), death.class())));
         // is it the reader-type decode that dies, or already the plain round trip (C09)?
-        let sig = format!(
-            "type_evolution|{}|edit={}|ext={}|rep={}",
-            death.class(),
-            p.edit,
-            ext_of(&p.w),
-            ver_name(r)
-        );
+        let sig = format!("type_evolution|decode_killed_process|rep={}|cause=misparse_consequence", ver_name(r));
         let v = values.get(vi).cloned();
         rep.violation(
             sig,
